@@ -11,15 +11,17 @@ Assumed (external, functional): SQLBaseError.rule_code, SQLBaseError.fixable.
 Top-level postcondition (ignore_masked_violations):  result == [v for v in violations if not hidden(v, directives)],
 order kept, with `hidden` = the property's first sentence (spec functions plain_hit / range_off / names below).
 
+Textual front end and mask construction (_parse_noqa, _extract_ignore_from_comment, from_tree, from_source,
+from_source_with_dialect, the two call sites in Linter, allowed_rule_ref_map): contracts/c20_front.py.
+
 Native-only companions (kind="native", alias keys, run from BOUNDED[1]): the `used` accounting clauses that need the
 PRE-state of a heap field of list elements (`old.<list>[i].used`), which the symbolic engine cannot express.
 Bounded stand-ins (BOUNDED): [0] the textual front end (_parse_noqa / _extract_ignore_from_comment / from_tree /
 from_source) against an executable grammar written from the documented syntax; [1] hidden/used over every small mask
 with call histories; [2] "noqa off hides nothing" and disable_noqa_except end to end.
 
-FINDING (kept as a failing clause, see BOUNDED[2] and the native search of the two range contracts): a range directive
-whose rule list is the EMPTY tuple -- what `noqa: disable=X` / `enable=X` parse to under `disable_noqa_except` when X is
-outside the excepted rules -- is treated as naming no rule, i.e. as covering EVERY rule (noqa.py:311 `not ignore.rules`).
+(Repaired in /repo, see `fixed` in known_findings.json: a range directive whose rule list is the EMPTY tuple -- what
+`noqa: disable=X` parses to under `disable_noqa_except` when X is outside the excepted rules -- used to cover EVERY rule.)
 
 Abstract view:  directive = (line_no, rules: None | tuple of codes, action: None | "enable" | "disable",
 used (mutable), line_pos, raw_str);  violation = (line_no, rule_code()).
@@ -1014,7 +1016,8 @@ TRUSTED = [
     "references as identity.  Assumed: violations that compare equal have the same line_no and rule_code() (true for the five concrete "
     "error classes: __dict__ holds line_no and, for SQLLintError, the rule), hence 'equal to a matched violation' implies 'matched' and both "
     "readings give the same filter.  The native search runs the real __eq__ on pools with many equal, distinct objects.",
-    "abstract view of NoQaDirective.action as None | 'enable' | 'disable' (what _parse_noqa produces: BOUNDED[0]); "
+    "abstract view of NoQaDirective.action as None | 'enable' | 'disable' (what _parse_noqa produces: proved there as the precondition "
+    "of the constructor, contracts/c20_front.py); "
     "rules as None | list of codes; directive lists are in file order (IgnoreMask.from_tree crawls the tree in source order), so "
     "'most recent on the same line' is 'later in the list'",
     "violations handed to the mask are pairwise distinct objects (precondition of the five filter contracts; "
@@ -1032,8 +1035,6 @@ NOT_COVERED = [
     "IgnoreMask.generate_warnings_for_unused: contract validated natively only (object construction inside a comprehension is outside the engine's subset); "
     "the warning's description text is not specified",
     "LintedFile.get_violations is proved for types=None, fixable=None, warn_unused_ignores=False",
-    "_parse_noqa / _extract_ignore_from_comment / from_tree / from_source / Linter.allowed_rule_ref_map / the disable_noqa switch in "
-    "lint_fix_parsed and lint_parsed: BOUNDED[0] and BOUNDED[2] only",
     "BaseRule._process_lint_result calls ignore_masked_violations([lerr]) while crawling (one violation per call): covered as a client of the "
     "top-level contract, not executed symbolically; cli.commands (the `parse`/render path) builds its own mask the same way",
     "from_source reports line_pos as a 0-based offset, from_tree as a 1-based column (only the position of unused-noqa warnings is affected; C23)",
@@ -1103,3 +1104,6 @@ SHARDS["sqlfluff.core.rules.noqa:IgnoreMask._ignore_masked_violations_line_range
 from . import c20_front as _front  # noqa: E402
 
 MUTANTS = MUTANTS + _front.MUTANTS
+BOUNDED = BOUNDED + _front.BOUNDED
+TRUSTED = TRUSTED + _front.TRUSTED
+NOT_COVERED = NOT_COVERED + _front.NOT_COVERED
